@@ -7,6 +7,10 @@ CONFIG = dict(
             dict(name="model", code=1300, kind="eq"),
             dict(name="spec", code=1301, kind="eq", predicate=True),
         ]),
+        dict(suffix="-t", comparisons=[
+            dict(name="model", code=1300, kind="eq"),
+            dict(name="holds", code=1302, kind="holds", predicate=True),
+        ]),
     ],
     trusted_base=COMMON_TB,
     assumptions=[],
